@@ -2,6 +2,7 @@
 from __future__ import annotations
 
 import asyncio
+import collections
 import random
 
 from .. import vt
@@ -146,7 +147,9 @@ def execute(stim):
                 elif inp['single']:
                     kw[inp['iname']] = refs[0]
                 else:
-                    kw[inp['iname']] = refs if (i + len(refs)) % 2 else tuple(refs)
+                    # a group is any sequence that is not a string
+                    form = [list, tuple, collections.deque, collections.UserList][(i + 3 * len(refs)) % 4]
+                    kw[inp['iname']] = form(refs)
             blks[i].connect(*args, **kw)
         probe_dest = edzed.Input('evsrc', initdef=0)
         for e in stim['events']:
